@@ -113,8 +113,9 @@ impl FuncResolve for ExistingArrayWithParenthesis {
         name: Name,
         args: Expressions,
     ) -> Result<Expression, LintErrorPos> {
-        // convert args
-        let converted_args = args.convert_in(ctx, extra.element)?;
+        // convert args (the subscripts are ordinary r-side expressions,
+        // no matter where the array element itself appears)
+        let converted_args = args.convert_in(ctx, ExprContext::Default)?;
         // the subscripts will be cast to integer
         for converted_arg in converted_args.iter() {
             if !converted_arg.can_cast_to(&TypeQualifier::PercentInteger) {
